@@ -156,6 +156,11 @@ func wellFormed(c *fw.Ctx, fn string, inner string, o *outcome) bool {
 		return false
 	}
 	bcNil := o.bc == nil || isNilIface(o.bc)
+	if o.err != nil && o.bc != nil && bcNil {
+		// a nil pointer wrapped in the Barcode interface: `bc != nil` is true for the caller
+		c.Violation("typed-nil-with-error:"+fn, fmt.Sprintf("returned an error together with a non-nil Barcode interface holding a nil %T", o.bc), inner, "")
+		return false
+	}
 	if bcNil && o.err == nil {
 		c.Violation("nil-nil:"+fn, "returned (nil, nil)", inner, "")
 		return false
@@ -338,5 +343,54 @@ func foreignDigitStrings() []string {
 		}
 	}
 	out = append(out, "МОСКВА", "ÄÖÜ", "ÀÉÎ 123", "ΑΒΓ", "ＡＢＣ")
+	return out
+}
+
+// ---- retained errors: an error returned earlier must keep its text.
+type retainedErr struct {
+	err  error
+	text string
+	desc string
+}
+
+var errRing []retainedErr
+
+func retainErr(c *fw.Ctx, fam string, err error, desc string) {
+	if err == nil {
+		return
+	}
+	for i := range errRing {
+		old := &errRing[i]
+		var now string
+		pv, _ := fw.Call(func() { now = old.err.Error() })
+		if pv != nil || now != old.text {
+			c.Violation("retained-error-changed/"+fam, fmt.Sprintf("the error returned for %s read %q and reads %q after the later rejected call %s", old.desc, old.text, now, desc), desc, "")
+			old.text = now
+		}
+	}
+	var text string
+	if pv, _ := fw.Call(func() { text = err.Error() }); pv != nil {
+		return
+	}
+	if len(errRing) >= 4 {
+		copy(errRing, errRing[1:])
+		errRing = errRing[:3]
+	}
+	errRing = append(errRing, retainedErr{err, text, desc})
+}
+
+// structuredPayloads: ISO 15434 envelopes (the DataMatrix macros), GS1 element strings,
+// symbology identifiers, ECI-like escapes, URLs and other formats that an encoder
+// might compact or interpret; every byte must come back.
+func structuredPayloads() [][]byte {
+	var out [][]byte
+	for _, s := range []string{
+		"[)>\x1e05\x1d0112345678901231\x1e\x04", "[)>\x1e06\x1d1P4711\x1dQ10\x1e\x04", "[)>\x1e05\x1d\x1e\x04", "[)>\x1e06\x1dX", "[)>\x1e07\x1dABC\x1e\x04", "x[)>\x1e05\x1dA\x1e\x04",
+		"[)>\x1e05\x1dDATA\x1e\x04tail", "\x1d0112345678901231", "]d201123456789012311712310010ABC", "]C1(01)12345678901231", "(01)09501101020917(17)261231(10)ABC123",
+		"\\000026hello", "\\000009", "\\\\", "\\F", "^FNC1", "http://example.org/?a=1&b=2", "HTTPS://EXAMPLE.ORG/ABC", "mailto:a@b.c", "BEGIN:VCARD\r\nN:Doe;John\r\nEND:VCARD", "WIFI:T:WPA;S:net;P:pass;;",
+		"\x02data\x03", "\x1bE", "\x1c\x1d\x1e\x1f", "\xe9\x1d\xe9", "{\"json\":true}", "<xml/>",
+	} {
+		out = append(out, []byte(s))
+	}
 	return out
 }
